@@ -618,6 +618,11 @@ type ExprBinOpRef<'a> = (&'a Sp<ast::Expr>, Sp<ast::BinOpKind>, &'a Sp<ast::Expr
 impl JmpKind {
     fn as_binop_cond(&self) -> Option<(Sp<ast::CondKeyword>, Sp<ExprBinOpRef<'_>>)> {
         match *self {
+            // (a counting jump written as `--x > 0` is not a plain comparison; its negation cannot be compiled)
+            JmpKind::Cond { cond: sp_pat!(ast::Expr::BinOp(ref a, _, ref b)), .. }
+                if matches!(a.value, ast::Expr::XcrementOp { .. }) || matches!(b.value, ast::Expr::XcrementOp { .. })
+                => None,
+
             JmpKind::Cond { keyword, cond: sp_pat!(span => ast::Expr::BinOp(ref a, op, ref b)) }
                 => Some((keyword, sp!(span => (a, op, b)))),
 
